@@ -315,6 +315,9 @@ func (w *World) verifyFunc(u *Unit, name string) (ex *Exec, err error) {
 				v := ex.freshVal(st, "cap."+o.Name(), o.Type())
 				st.vars[o] = v
 				st.names[o.Name()] = o
+				if _, clash := st.bound[o.Name()]; !clash {
+					st.bound[o.Name()] = v
+				}
 				ex.modelVars = append(ex.modelVars, v.Term.Op)
 				if isRefLike(o.Type()) && (fs == nil || !fs.Nilable[o.Name()]) {
 					st.assume(gt(v.Term, intLit(0)))
@@ -392,6 +395,7 @@ func (w *World) verifyFunc(u *Unit, name string) (ex *Exec, err error) {
 			continue
 		}
 		e := f.st
+		ex.runHooks(e, "exit", "", nil, nil, pos)
 		ex.runDefers(e)
 		if e.dead {
 			continue
@@ -408,6 +412,12 @@ func (w *World) verifyFunc(u *Unit, name string) (ex *Exec, err error) {
 	}
 	if nret == 0 {
 		ex.oblige(st, "terminates-normally", "some-path", pos, tFalse, nil)
+	}
+	// flows clauses: every use of a parameter is a direct argument of a listed callee
+	if fs != nil {
+		for pname, callees := range fs.Flows {
+			ex.checkFlows(body, pname, callees, pos)
+		}
 	}
 	// vacuity: unmatched anchors / loops in the contract
 	if fs != nil {
@@ -739,4 +749,63 @@ func envOr(k, d string) string {
 		return v
 	}
 	return d
+}
+
+func init() {
+	if os.Getenv("GOVC_DEBUGLIB") != "" {
+		defer func() {}()
+	}
+}
+
+// checkFlows: syntactic frame/ownership condition on a parameter.
+func (ex *Exec) checkFlows(body *ast.BlockStmt, pname string, callees []string, pos token.Pos) {
+	var obj types.Object
+	if o, ok := ex.entryState.names[pname]; ok {
+		obj = o
+	}
+	if obj == nil {
+		ex.obligeAST("flows", pname, pos, false, "no parameter/captured variable named "+pname, nil)
+		return
+	}
+	allowed := map[token.Pos]bool{}
+	ast.Inspect(body, func(x ast.Node) bool {
+		call, ok := x.(*ast.CallExpr)
+		if !ok {
+			return true
+		}
+		fn := ex.calleeOf(call)
+		if fn == nil {
+			return true
+		}
+		okCallee := false
+		for _, k := range hookKeys(fn) {
+			for _, c := range callees {
+				if c == k {
+					okCallee = true
+				}
+			}
+		}
+		if !okCallee {
+			return true
+		}
+		for _, a := range call.Args {
+			if id, ok := ast.Unparen(a).(*ast.Ident); ok && ex.Info.ObjectOf(id) == obj {
+				allowed[id.Pos()] = true
+			}
+		}
+		return true
+	})
+	uses, bad := 0, 0
+	var where []string
+	ast.Inspect(body, func(x ast.Node) bool {
+		if id, ok := x.(*ast.Ident); ok && ex.Info.Uses[id] == obj {
+			uses++
+			if !allowed[id.Pos()] {
+				bad++
+				where = append(where, ex.posStr(id.Pos()))
+			}
+		}
+		return true
+	})
+	ex.obligeAST("flows", pname, pos, bad == 0 && uses >= 1, fmt.Sprintf("%s is used %d time(s); uses other than as argument of %v at %v", pname, uses, callees, where), nil)
 }
